@@ -271,6 +271,15 @@ def _global_scan(ctx, res: RuleResult, fis) -> int:
         for dec in fn.decorator_list:
             dn = norm(dec.func if isinstance(dec, ast.Call) else dec)
             if dn.split(".")[-1] in ("lru_cache", "cache", "cached_property", "memoize", "memoized"):
+                # harmless when the function maps immutable scalars to an immutable scalar: every parameter and the result
+                # annotated str / int / float / bool / bytes (no object a caller could change or empty)
+                scalar = ("str", "int", "float", "bool", "bytes")
+                all_params = fn.args.posonlyargs + fn.args.args + fn.args.kwonlyargs
+                if dn.split(".")[-1] in ("lru_cache", "cache") and fi.cls is None and all_params and not fn.args.vararg and not fn.args.kwarg \
+                        and all(a.annotation is not None and norm(a.annotation) in scalar for a in all_params) \
+                        and fn.returns is not None and norm(fn.returns) in scalar \
+                        and not any(isinstance(x, (ast.Global, ast.Nonlocal)) for x in ast.walk(fn)):
+                    continue
                 bad.append((dec, f"`@{dn}` keeps results (keyed by argument identity/equality) across calls: a later call can see objects an earlier call created or emptied"))
         for n in own_walk(fn):
             if isinstance(n, (ast.Global, ast.Nonlocal)):
@@ -799,7 +808,7 @@ def _seed_ok(ctx, fi: FuncInfo) -> tuple[bool, str, Optional[ast.AST]]:
     total = n_global + sum(len(v) for v in s["params"].values())
     seeded_gens = [n for n in own_walk(fn) if isinstance(n, ast.Call) and M.gen_kind(fi, n) == "seeded"]
     if n_global == 0 and not seeded_gens and not s["params"]:
-        return False, "no random draw is reachable (the helper no longer permutes)", None
+        raise AnalysisError("R-SEED: no random draw is found in what the permutation helper calls (the drawing function is reached in a way this rule does not follow, or the helper no longer permutes)")
     how = f"random.seed({short(good[0].args[0])})" if good else (f"{short(seeded_gens[0])}" if seeded_gens else "caller-provided generator")
     return True, f"{n_global} module-level drawing call(s) dominated by {how}; other draws go through the seeded generator", good[0] if good else (seeded_gens[0] if seeded_gens else None)
 
@@ -1390,35 +1399,55 @@ def r_labelorder(ctx) -> RuleResult:
     # every return of the public helper must come (through tucan calls) from a function whose returned graph is a rebuild site
     rebuilt = {(fi.fq, g) for fi, g, _, _ in sites_}
 
-    def returns_rebuilt(fi: FuncInfo, depth=0) -> bool:
+    def returns_rebuilt(fi: FuncInfo, depth=0):
+        """True: every returned graph is a rebuild; False: some returned graph positively is something else (a parameter, the
+        result of a relabelling / copy); None: a returned value is not followed"""
         if depth > 5:
-            return False
+            return None
         rets = [n.value for n in own_walk(fi.node) if isinstance(n, ast.Return) and n.value is not None]
         if not rets:
-            return False
+            return None
+        verdict = True
         for r in rets:
             if isinstance(r, ast.Name):
                 if (fi.fq, r.id) in rebuilt:
                     continue
+                if r.id in params_of(fi.node) and not assigned_names(fi.node).get(r.id):
+                    return False
                 defs = assigned_names(fi.node).get(r.id, [])
                 vals = [d.value for d in defs if isinstance(d, ast.Assign)]
                 if not vals or len(vals) != len(defs):
-                    return False
+                    verdict = None
+                    continue
                 for v in vals:
-                    if not (isinstance(v, ast.Call) and _call_returns_rebuilt(fi, v, depth)):
+                    c_ = _call_returns_rebuilt(fi, v, depth) if isinstance(v, ast.Call) else None
+                    if c_ is False:
                         return False
+                    if c_ is None:
+                        verdict = None
             elif isinstance(r, ast.Call):
-                if not _call_returns_rebuilt(fi, r, depth):
+                c_ = _call_returns_rebuilt(fi, r, depth)
+                if c_ is False:
                     return False
+                if c_ is None:
+                    verdict = None
             else:
-                return False
-        return True
+                verdict = None
+        return verdict
 
     def _call_returns_rebuilt(fi, call, depth):
         cs = ctx.cg.resolve_call(fi, call, ctx.cg.local_types(fi), set(params_of(fi.node)))
-        return cs.kind == "tucan" and returns_rebuilt(cs.target, depth + 1)
+        if cs.kind == "tucan":
+            return returns_rebuilt(cs.target, depth + 1)
+        if cs.kind == "ext" and cs.target in ("networkx.relabel_nodes", "networkx.convert_node_labels_to_integers"):
+            return False            # renames in place of the old listing order
+        if isinstance(call.func, ast.Attribute) and call.func.attr == "copy" and not call.args:
+            return False
+        return None
 
     ok0 = returns_rebuilt(fi0)
+    if ok0 is None:
+        raise AnalysisError("R-LABELORDER: a value the permutation helper returns is not followed back to the function that makes it")
     res.inst(fi0.fq, "every returned graph comes from the label-ordered rebuild", "ok" if ok0 else "fail")
     if not ok0:
         res.fail(Finding("R-LABELORDER", fi0.module.rel, fi0.qualname, "return", "a returned graph does not come from the rebuild that orders atoms by label", line=fi0.node.lineno))
@@ -1428,7 +1457,11 @@ def r_labelorder(ctx) -> RuleResult:
             if tv is None:
                 raise AnalysisError(f"R-LABELORDER: cannot trace `{short(c)}`")
             k, src, data, is_sorted, key = tv
-            ok = is_sorted and key is None and k == "nodes"
+            # a key that takes the label out of the (label, data) pair orders like no key at all (labels are unique)
+            by_label = key is not None and (norm(key) in ("itemgetter(0)", "operator.itemgetter(0)") or
+                                            (isinstance(key, ast.Lambda) and len(key.args.args) == 1 and isinstance(key.body, ast.Subscript) and isinstance(key.body.value, ast.Name)
+                                             and key.body.value.id == key.args.args[0].arg and isinstance(key.body.slice, ast.Constant) and key.body.slice.value == 0))
+            ok = is_sorted and (key is None or by_label) and k == "nodes"
             res.inst(fi.fq, short(c), "ok" if ok else "fail", detail=f"sorted={is_sorted} key={norm(key) if key is not None else None}")
             if not ok:
                 res.fail(Finding("R-LABELORDER", fi.module.rel, fi.qualname, norm(c),
